@@ -56,6 +56,8 @@ F_WRAP = "f_wrap"       # foreign advice on top of a joinpoint (kept out of the 
 F_WRAP_GM = "f_wrap_gm"  # another extension wraps ip.Completer.global_matches, keeping the previous callable (C13 only, O-only)
 
 OPS = ["enable", "enable_again", "disable", "load_ext", "unload_ext", "reload_ext", "run_cell", "complete"]
+# hunt 2 (C14-H2): load_ext while sys.stderr is a StringIO (the optional debug tools of load_ipython_extension cannot be set up)
+LOAD_NOFD = "load_ext_nofd"
 # round 4: other ways in which "a cell reads a known name" (each reaches a different installed hook) ...
 CELL_FORMS = ["pinfo", "autocall", "prun", "run_script", "complete_attr"]
 # ... and cells whose auto-import is interrupted by a BaseException raised by the imported module
@@ -104,6 +106,11 @@ def make_env(root):
         f.write("zzq_script_value = zzq_mod_20.VALUE + 1\nprint('script ran', zzq_script_value)\n")
     with open(os.path.join(mods, "zzq_script_plain.py"), "w") as f:
         f.write("zzq_plain_value = 41 + 1\nprint('plain script ran', zzq_plain_value)\n")
+    # hunt 2 (C13-H3): valid scripts that do not decode as plain UTF-8 text: a UTF-8 BOM, a PEP 263 latin-1 cookie
+    with open(os.path.join(mods, "zzq_script_enc_0.py"), "wb") as f:
+        f.write(b"\xef\xbb\xbfzzq_enc_value = 40 + 1\nprint('bom script ran', zzq_enc_value)\n")
+    with open(os.path.join(mods, "zzq_script_enc_1.py"), "wb") as f:
+        f.write(b"# -*- coding: latin-1 -*-\nzzq_enc_value = len('caf\xe9')\nprint('latin script ran', zzq_enc_value)\n")
     # scripts under unusual-but-legitimate paths (pyflyby's Filename class accepts only [a-zA-Z0-9_=+{}/.,~@-])
     for j, (d, fn) in enumerate(ODD_PATHS):
         os.makedirs(os.path.join(mods, d), exist_ok=True)
@@ -846,6 +853,15 @@ def do_op(op, arg, ident):
                 ip = G["ip"]
             elif op == "load_ext":
                 r["ret"] = ip.extension_manager.load_extension("pyflyby")
+            elif op == LOAD_NOFD:
+                # %load_ext inside `%%capture` / contextlib.redirect_stderr: sys.stderr has no fileno()
+                import io as _io
+                _se = sys.stderr
+                sys.stderr = _io.StringIO()
+                try:
+                    r["ret"] = ip.extension_manager.load_extension("pyflyby")
+                finally:
+                    sys.stderr = _se
             elif op == "unload_ext":
                 r["ret"] = ip.extension_manager.unload_extension("pyflyby")
             elif op == "reload_ext":
@@ -924,6 +940,8 @@ def run_c14(job):
         r["mv"] = model_view(ident)
         r["loaded"] = G["ip"] is not None and "pyflyby" in G["ip"].extension_manager.loaded
         r["hlnames"] = hook_names()
+        # hunt 2 (C14-H1): pyflyby's own finders in sys.meta_path (pyflyby._dynimp.inject)
+        r["n_meta_finders"] = sum(1 for f in sys.meta_path if (type(f).__module__ or "").startswith("pyflyby"))
         steps.append(r)
         prev = s
     return dict(config=G["config"], steps=steps, mv0=mv0, nkeys=len(s0))
@@ -968,6 +986,11 @@ def fill_args(ops):
         else:
             out.append([op, None])
     return out
+
+
+def vary_loads(rng, ops, p=0.3):
+    """some load_ext happen while sys.stderr has no fileno()"""
+    return [LOAD_NOFD if op == "load_ext" and rng.random() < p else op for op in ops]
 
 
 def vary_cells(rng, ops, p=0.45):
